@@ -1013,6 +1013,15 @@ fn number_lists(thorough: bool) -> Vec<RVal> {
         continue;
       }
       out.push(l((0..len).map(|k| n((k * mult + 3) % len + 1)).collect()));
+      // and a fixed irregular arrangement of the same items (Fisher-Yates driven by a linear congruential sequence)
+      let mut items: Vec<i64> = (1..=len).collect();
+      let mut state: u64 = (len as u64) * 2654435761 + mult as u64;
+      for i in (1..items.len()).rev() {
+        state = state.wrapping_mul(6364136223846793005).wrapping_add(1442695040888963407);
+        let j = ((state >> 33) % (i as u64 + 1)) as usize;
+        items.swap(i, j);
+      }
+      out.push(l(items.into_iter().map(n).collect()));
       // the same with one duplicate and one fraction
       let mut v: Vec<RVal> = (0..len).map(|k| n((k * mult + 3) % len + 1)).collect();
       v[1] = v[0].clone();
